@@ -18,6 +18,7 @@ import Rl.Lemmas.EditorRing
 import Rl.Lemmas.EditorPop
 import Rl.Lemmas.EditorPopLocal
 import Rl.Lemmas.EditorKillReports
+import Rl.Lemmas.EditorLog
 open Rl
 
 /-- A successful read of one byte consumes exactly one byte of the input (buffer, kernel queue or
@@ -341,7 +342,7 @@ structure C17_Open (S : Segmenter) (U : UData) (cfg : EdCfg) (J : Ed → Prop) :
   refresh : KeepsJ J (refreshLine S U cfg)
   next : ∀ fuel, KeepsJ J (nextCmd S U cfg fuel false false)
   reset : ∀ s, J s → J { s with ring := s.ring.reset }
-  pre : ∀ fuel cmd, KeepsJ J (preCmds S U cfg fuel cmd)
+  pre : ∀ fuel cmd s, RdInv cfg s → J s → wp (preCmds S U cfg fuel cmd) (fun _ s' => J s') (fun _ _ => True) s
   susp : ∀ s, J s → J { s with suspends := s.suspends + 1 }
   nextChar : KeepsJ J nextChar
   insert : ∀ c, KeepsJ J (editInsert S U cfg c 1)
@@ -489,6 +490,45 @@ theorem C17_editor_no_panic_of_no_D43 (S : Segmenter) (U : UData) (cfg : EdCfg) 
     (hd : ¬ D43 (readline S U cfg (KillRing.new 60) left right inp).2) :
     (readline S U cfg (KillRing.new 60) left right inp).1 ≠ .panic :=
   fun hp => hd (C17_editor_no_panic_partial S U cfg left right inp hv hnp hcomp hind hS hb ho hp)
+
+/-- the open obligations, DISCHARGED in emacs mode with the concrete cross-step invariant
+    `J := UndoLogInv` ("the undo stack, replayed oldest change first from some text, gives the text of the
+    line"): `Undo` is safe from it and re-establishes it (`rsafe_undo`, C05_undo_past_text); every other
+    command keeps it (`logK_execute`: every line-buffer call reports exactly what it did — `Replays` — and
+    the listener logs what it is told — `C05_log_replay`; group markers change nothing —
+    `C05_log_markers`); `next_cmd` only adds markers (`logK_nextCmd`, both modes); the dispatch loop keeps
+    it (`logJ_preCmds`: inside a completion or a search every step does, and an abort restores line and
+    log together — `SubLog.facts`, `truncateClosed`); the other steps do not touch line or log. -/
+theorem C17_open_emacs (S : Segmenter) (U : UData) (cfg : EdCfg) (hvi : cfg.vi = false)
+    (hnp : cfg.hinterPanicAt = none) (hb : BindsI cfg)
+    (hcomp : ∀ t p, IsBoundary t (cfg.completer t p).1 ∧ (cfg.completer t p).1 ≤ p) :
+    C17_Open S U cfg UndoLogInv where
+  undo := fun n s h hj => rsafe_undo S U cfg hnp n h hj
+  other := fun cmd hne _ s hj => (logK_execute S U cfg cmd (by
+    cases cmd <;> first | rfl | exact absurd rfl (hne _))).h s hj
+  init := fun _ _ => ⟨[], rfl⟩
+  initText := fun b p => (logK_lb S U (Replays.update S U b p)).h
+  refresh := (LogK.of_core (keeps_refreshLine S U cfg)).h
+  next := fun fuel => (logK_nextCmd S U cfg fuel false false).h
+  reset := fun _ hj => hj
+  pre := logJ_preCmds S U cfg ⟨hnp, hb, hcomp⟩ hvi
+  susp := fun _ hj => hj
+  nextChar := (LogK.of_core keeps_nextChar).h
+  insert := fun c => (logK_editInsert S U cfg c 1).h
+
+/-- **In emacs mode the only panic of a whole read is D43** — no open obligation left: for helpers that do
+    not panic, an indent size that fits the code's `u8`, a completer that reports a start on a character
+    boundary at or before the cursor, a stable segmenter and acceptable bindings (`BindsI`), if
+    `readline` ends with the panic outcome then its final state has a last insertion longer than 65535
+    bytes (known finding D43: the re-do of vi's `R`, reachable in emacs mode only through a binding). -/
+theorem C17_editor_no_panic_emacs (S : Segmenter) (U : UData) (cfg : EdCfg) (left right : Text) (inp : Input)
+    (hvi : cfg.vi = false) (hv : ∀ t, cfg.validator t ≠ .panic) (hnp : cfg.hinterPanicAt = none)
+    (hcomp : ∀ t p, IsBoundary t (cfg.completer t p).1 ∧ (cfg.completer t p).1 ≤ p)
+    (hind : cfg.indentSize ≤ 255) (hS : S.Stable) (hb : BindsI cfg) :
+    (readline S U cfg (KillRing.new 60) left right inp).1 = .panic →
+      D43 (readline S U cfg (KillRing.new 60) left right inp).2 :=
+  C17_editor_no_panic_partial S U cfg left right inp hv hnp hcomp hind hS hb
+    (C17_open_emacs S U cfg hvi hnp hb hcomp)
 
 /-- every command but vi's `R` (`Replace(ForwardChar 0, None)`, whose redo converts the length of
     the last insertion to a `RepeatCount`) can be re-done whatever the last insertion was -/
